@@ -31,6 +31,7 @@ pub struct RunOutput {
     pub harness_error: Option<String>,
     pub nontrivial: bool,
     pub shape: String,
+    pub extra: std::collections::BTreeMap<String, u64>,
 }
 
 pub fn scratch_dir(seed: u64) -> PathBuf {
@@ -55,6 +56,8 @@ fn opts_for(case: &Case) -> Opts {
 
 pub fn run_case(case: &Case) -> RunOutput {
     match case.prop.as_str() {
+        "C04" => crate::crash::run_crash(case),
+        "C12" => crate::conc::run_conc(case),
         _ => run_sequential(case),
     }
 }
